@@ -1,7 +1,7 @@
 """C11 - concurrent senders never corrupt the wire."""
 from hypothesis import strategies as st
 
-from harness import wire, deflateref
+from harness import wire, deflateref, simnet
 from harness.runner import Prop, Enumeration, held, failed
 from props import racecommon as rc
 
@@ -272,6 +272,14 @@ class C11(Prop):
             out.append(Enumeration("preemption_inside_a_write_x_every_second_preemption", in_write_races, exhaustive=True))
         if self.first_use():
             out.append(Enumeration("early_first_preemption_x_every_second_preemption", first_use_races, exhaustive=True))
+        if type(self) is C11:
+            def slow_sends():
+                for proxy in (False, True):
+                    for tls in (False, True):
+                        for size in (300, 70000, 200000):
+                            for secs in (12.0, 45.0, 400.0):
+                                yield {"slow_send": True, "proxy": proxy, "tls": tls, "size": size, "secs": secs}
+            out.append(Enumeration("a_send_that_takes_long_then_other_writers_direct_proxy_tls", slow_sends, exhaustive=True))
         return out
 
     def first_use(self):
@@ -308,7 +316,56 @@ class C11(Prop):
             return out, (bad[0], "%s | schedule order=%s preemptions=%s" % (bad[1], schedule["order"], where))
         return out, None
 
+    def run_slow_send(self, case):
+        """Writers one after the other around a send that takes a long (virtual) time - a peer that stopped reading, a slow
+        link; 45 s, longer than the 30 s the client allows for connecting - on a direct / proxied / TLS connection: the slow
+        send is a blocking one and completes; the application's next sends and the loop's Pongs follow it.  The wire must be
+        whole frames holding exactly those messages."""
+        from harness import build, httpref
+        big = rc.big_payload("A", 0, case["size"])
+        ping = wire.build_frame(wire.PING, b"are you there")
+        reactions = [{"when": ["event", "ready", 0], "do": [["send_binary", big.encode().hex()], ["send_text", "after the slow one"]]},
+                     {"when": ["event", "ping", 0], "do": [["send_text", "at the ping"]]}]
+        script = [["wait_request"]]
+        if case["proxy"]:
+            from props.c09 import PROXY_200
+            script += [["stream", [["bytes", PROXY_200]], "whole", 0.0], ["wait_requests", 2]]
+        script += [["stream", [["reply", None]], "whole", 0.0], ["stream", [["bytes", ping]], "whole", 50.0], ["eof", 60.0]]
+        kw = {"url": "wss://example.test/"} if case["tls"] else {}
+        if case["proxy"]:
+            kw["ws_opts"] = {"proxies": {"http": "http://proxy.test:3128", "https": "http://proxy.test:3128"}}
+        # the slow write is the first one after the upgrade request(s)
+        ordinal = 2 if case["proxy"] else 1
+        scn = build.scenario(script, reactions=reactions, connect_opts={"ping_rate": 0, "poll": 5.0},
+                             attempt_extra={"faults": {"send": {str(ordinal): "slow:%s" % case["secs"]}}}, horizon=500.0, **kw)
+        tr = simnet.run_scenario(scn)
+        labels = {"slow_send", "proxy" if case["proxy"] else "direct", "wss" if case["tls"] else "ws"}
+        if tr.hang:
+            return failed("hang", tr.hang, labels, True)
+        if tr.escaped:
+            return failed("escaped_exception", tr.escaped, labels, True)
+        out = b"".join(e[2] for e in tr.sim.log if e[0] == "send")
+        # what the client wrote after its last HTTP request
+        idx = out.rfind(b"\r\n\r\n")
+        frames, problems = wire.decode_client_frames(out[idx + 4:] if idx >= 0 else out)
+        if problems:
+            return failed("torn_or_invalid_frames", "after a send that took %s s: %s" % (case["secs"], "; ".join(problems[:3])),
+                          labels, True)
+        bad = [r for r in tr.actions if r["result"] != "ok"]
+        if bad:
+            return failed("send_failed", "a send on an open connection raised: %s" % [(r["action"][0], r["result"]) for r in bad],
+                          labels, True)
+        got = [(f.opcode, f.payload) for f in frames]
+        want = [(wire.BINARY, big.encode()), (wire.TEXT, b"after the slow one"), (wire.PONG, b"are you there"),
+                (wire.TEXT, b"at the ping")]
+        if got != want:
+            return failed("message_missing_or_corrupted", "wire holds %s, expected %s" % (
+                [(o, b[:16]) for o, b in got], [(o, b[:16]) for o, b in want]), labels, True)
+        return held(labels, True)
+
     def run_case(self, case):
+        if case.get("slow_send"):
+            return self.run_slow_send(case)
         try:
             return self._run_case(case)
         except rc.SetupNotReady as error:
